@@ -14,14 +14,22 @@ EXPLANATION = ("Pairs of models built in one process from the same symbolic para
                "mobilizer reaction forces are rotated by R_X, qdot, udot and kinetic energy are identical, potential energy differs by the constant -(M+m_W) (R_X g).p_X. "
                "(c) direction: Ground-Free->P-Y(forward)->C versus Ground-Free->C'-Y(reversed, frames swapped)->P' with the same q,u for Y, the Free base of the second "
                "model fitted to C's pose and velocity: poses, velocities and accelerations of both bodies and udot of Y coincide. "
-               "(a) representation: quaternion state -> convertToEulerAngles -> convertToQuaternions: poses, velocities, accelerations of every body preserved in both "
-               "directions. (b) FunctionBased mobilizers mirroring Pin, Slider, Universal, Gimbal, Bushing versus the built-in ones.")
-BOUNDS = ("(d) trees of 1-3 bodies from the catalogue (12 quick / 40 thorough), (c) every mobilizer type as Y (quick 10, thorough all, Euler and quaternion), "
-          "(a) trees of 1-3 bodies containing quaternion mobilizers, (b) 5 mirrored types on 1-2 body trees; all linearly occurring inputs (u, gravity, applied "
-          "forces, mobility forces) free plus k coordinates at a time (1 quick / 2 thorough), others pinned at exact base points (2 quick / 6 thorough)")
+               "(a) representation: a quaternion state through convertToEulerAngles, and an Euler-angle state through convertToQuaternions: pose, spatial velocity, "
+               "spatial acceleration of every body, u and udot are preserved (gravity and mobility forces applied). (b) FunctionBased mobilizers (MobilizedBody::Custom "
+               "bridge) mirroring Pin, Slider, Universal, Cylinder, Planar, Gimbal, Bushing, Translation versus the built-in ones: same poses, velocities, accelerations, "
+               "reaction forces, qdot, udot, energies.")
+BOUNDS = ("(d) trees of 1-3 bodies from the catalogue (8 quick / 42 thorough), (c) Y = 7 mobilizer types quick, 15 thorough (Euler and quaternion; not Screw and "
+          "CantileverFreeBeam), (a) 6 quick / 15 thorough trees of 1-3 bodies containing quaternion mobilizers, each in both directions, the unit quaternions parametrised by "
+          "three half angles, (b) FunctionBased mirrors of Pin, Slider, Universal, Cylinder, Planar, Gimbal, Bushing, Translation alone, under a Pin and over a Pin, forward and "
+          "reversed; all linearly occurring inputs (u, gravity, applied forces, mobility forces) free plus k coordinates at a time (1 quick / 2 thorough; (a): accelerations "
+          "and udot only with every coordinate pinned), others pinned at exact base points (2 quick / 6 thorough)")
 NOT_COVERED = ("models with constraints (multipliers: LAPACK); MobilizedBody::Custom written directly against the Implementation interface (only FunctionBased, which is "
-               "built on Custom); more than k simultaneously free coordinates; the executed branch only of convertToEulerAngles/convertToQuaternions and of the Free "
-               "fit used to place the second model in (c); float; rounding")
+               "built on Custom, with linear coordinate functions); (c) for Screw and CantileverFreeBeam (coordinate occurs outside sin/cos: the two-model dynamics exceeds the "
+               "encoder's size limit; their reversal is covered kinematically by C05); (a) the composition of both conversions in one run (each direction is proved "
+               "separately, from arbitrary unit quaternions resp. arbitrary Euler angles), accelerations with a free coordinate, and accelerations across the conversion "
+               "for Free/FreeLine (size limit; their poses and velocities are covered); more than k simultaneously free "
+               "coordinates; only the executed branch of convertToEulerAngles/convertToQuaternions (asin/atan2 ranges, quaternion extraction case) and of the Free fit used "
+               "to place the second model in (c); float; rounding")
 
 
 def instances(tier, seed):
@@ -32,7 +40,7 @@ def instances(tier, seed):
     pick = [s for s in specs if s[0].startswith(("2:", "3"))]
     ones = [s for s in specs if s[0].startswith("1:")]
     rng.shuffle(ones)
-    pick = pick[:8 if tier == "quick" else 30] + ones[:4 if tier == "quick" else 12]
+    pick = pick[:5 if tier == "quick" else 30] + ones[:3 if tier == "quick" else 12]
     for n, spec, e in pick:
         out.append(dict(name="weld:" + n, harness="C06_weldoffset.cpp", args=[spec, "1" if e else "0"]))
     # (c) direction: reversed mobilizer with swapped roles
@@ -41,22 +49,50 @@ def instances(tier, seed):
     ys = ["Pin", "Slider", "Universal", "Cylinder", "BendStretch", "Planar", "Gimbal", "Bushing", "Ball", "Free", "LineOrientation", "FreeLine",
           "Translation", "SphericalCoords", "Ellipsoid"]
     if tier == "quick":
-        ys = ["Pin", "Slider", "Universal", "Cylinder", "Gimbal", "Ball", "Planar", "BendStretch", "Translation", "LineOrientation"]
+        ys = ["Pin", "Universal", "Cylinder", "Gimbal", "Ball", "Planar", "LineOrientation"]
     for y in ys:
         eul = [False, True] if (y in cat.QUAT and tier == "thorough") else [False]
         for e in eul:
             d = dict(name="rev:%s%s" % (y, ":euler" if e else ""), harness="C06_reverse.cpp", args=[y, "1" if e else "0", "2"])
             out.append(d)
+    # (a) quaternion <-> Euler conversion of the state
+    trees = ["Ball:0", "Free:0", "LineOrientation:0", "Ellipsoid:0", "Pin:0,Ball:1", "Ball:0r,Slider:1"]
+    if tier == "thorough":
+        trees += ["FreeLine:0", "Ball:0r", "Free:0r", "Ellipsoid:0r", "Free:0,Pin:1", "Universal:0,Free:1", "Ball:0,Ball:1", "Gimbal:0,LineOrientation:1",
+                  "Pin:0,Ball:1,Slider:2"]
+    for t in trees:
+        for start in ("0", "1"):
+            d = "q2e" if start == "0" else "e2q"
+            # kin: poses and velocities, one angle free; dyn: also accelerations and udot, every coordinate pinned (not for the 6-dof
+            # quaternion mobilizers, whose Euler-mode accelerations with symbolic mass properties exceed the size limit)
+            out.append(dict(name="euler:%s:kin:%s" % (d, t), harness="C06_euler.cpp", args=[t, start, "kin"], max_terms=100000))
+            if "Free" not in t:
+                out.append(dict(name="euler:%s:dyn:%s" % (d, t), harness="C06_euler.cpp", args=[t, start, "dyn"], max_terms=200000))
+    # (b) FunctionBased (Custom) mirror of a built-in mobilizer
+    mir = ["Pin", "Slider", "Universal", "Cylinder", "Planar", "Gimbal", "Bushing", "Translation"]
+    for m in mir:
+        shapes = ["1", "pre", "post"] if (tier == "thorough" or m in ("Gimbal",)) else [rng.choice(["1", "pre", "post"])]
+        for sh in shapes:
+            for rv in (["0", "1"] if (tier == "thorough" or m in ("Universal", "Slider")) else ["0"]):
+                out.append(dict(name="custom:%s:%s%s" % (m, sh, ":rev" if rv == "1" else ""), harness="C06_custom.cpp", args=[m, sh, rv]))
     return out
 
 
 def free_sets(inst, tr, tier, rng):
+    if inst["name"].startswith("euler:"):
+        lin = [n for n, kind, _, _ in tr.inputs if kind == "lin"]
+        # (q2e: the unit quaternions are parametrised in the harness by half angles e<start>_<k>, which may be free)
+        if ":dyn:" in inst["name"]:
+            return [lin]
+        angles = [n for n, kind, _, _ in tr.inputs if (n.startswith("q") and n[1:].isdigit() or n.startswith("e")) and kind == "angle"]
+        rng.shuffle(angles)
+        return [lin] + [lin + [a] for a in angles[:1 if tier == "quick" else 3]]
     return cat.coordinate_free_sets(inst, tr, tier, rng, always=("u", "g_", "f", "Fext_", "F"))
 
 
 def obligations(enc, inst, tr):
     kind = inst["name"].split(":")[0]
-    return {"weld": ob_weld, "rev": ob_rev}[kind](enc, inst, tr)
+    return {"weld": ob_weld, "rev": ob_rev, "euler": ob_euler, "custom": ob_custom}[kind](enc, inst, tr)
 
 
 def _sv(enc, pre):
@@ -109,4 +145,49 @@ def ob_rev(enc, inst, tr):
     obs.append(eqs(enc, "qdot of the mobilizer is the same forward and reversed", [(enc.out("B_qdotY_%d" % i), enc.out("A_qdotY_%d" % i)) for i in range(nqY)]))
     obs.append(eqs(enc, "kinetic energy equal", [(enc.out("B_KE"), enc.out("A_KE"))]))
     obs.append(eqs(enc, "potential energy equal", [(enc.out("B_PE"), enc.out("A_PE"))]))
+    return obs
+
+
+def ob_euler(enc, inst, tr):
+    nb, nu = int(tr.note("nb")), int(tr.note("nu"))
+    unit = cat.unit_quaternion_hyps(enc, tr)
+    obs = []
+
+    def xf(pre):
+        return [enc.out("%s_R_%d_%d" % (pre, i, j)) for i in range(3) for j in range(3)] + [enc.out("%s_p_%d" % (pre, i)) for i in range(3)]
+
+    def sv(pre):
+        return [enc.out("%s_w_%d" % (pre, i)) for i in range(3)] + [enc.out("%s_v_%d" % (pre, i)) for i in range(3)]
+
+    # accelerations (large rational functions of the inverse-trigonometric variables) only with every coordinate pinned
+    dyn = inst["args"][2] == "dyn"
+    q2e = inst["args"][1] == "0"
+    nonlin_free = [n for n, kind, _, _ in tr.inputs if kind != "lin" and enc.is_free(n)]
+    for k, txt in ((1, "conversion"),):
+        for b in range(1, nb):
+            obs.append(eqs(enc, "%s preserves the pose of body %d" % (txt, b), list(zip(xf("S%d_X%d" % (k, b)), xf("S0_X%d" % b)))))
+            if not (q2e and nonlin_free):       # (quaternion -> Euler with a free angle: pose only; velocities at pinned configurations)
+                obs.append(eqs(enc, "%s preserves the spatial velocity of body %d" % (txt, b), list(zip(sv("S%d_V%d" % (k, b)), sv("S0_V%d" % b)))))
+            if dyn:
+                obs.append(eqs(enc, "%s preserves the spatial acceleration of body %d" % (txt, b), list(zip(sv("S%d_A%d" % (k, b)), sv("S0_A%d" % b)))))
+        obs.append(eqs(enc, "%s preserves the generalized speeds u" % txt, [(enc.out("S%d_u_%d" % (k, i)), enc.out("S0_u_%d" % i)) for i in range(nu)]))
+        if dyn:
+            obs.append(eqs(enc, "%s preserves udot" % txt, [(enc.out("S%d_udot_%d" % (k, i)), enc.out("S0_udot_%d" % i)) for i in range(nu)]))
+    return obs
+
+
+def ob_custom(enc, inst, tr):
+    nb, nu, nq = int(tr.note("nb")), int(tr.note("nu")), int(tr.note("nq"))
+    obs = []
+    for k in range(1, nb):
+        xa = [enc.out("A_X%d_R_%d_%d" % (k, i, j)) for i in range(3) for j in range(3)] + [enc.out("A_X%d_p_%d" % (k, i)) for i in range(3)]
+        xb = [enc.out("B_X%d_R_%d_%d" % (k, i, j)) for i in range(3) for j in range(3)] + [enc.out("B_X%d_p_%d" % (k, i)) for i in range(3)]
+        obs.append(eqs(enc, "FunctionBased vs built-in: same pose of body %d" % k, list(zip(xb, xa))))
+        for q, txt in (("V", "spatial velocity"), ("A", "spatial acceleration"), ("R", "mobilizer reaction force")):
+            a = [enc.out("A_%s%d_%s_%d" % (q, k, c, i)) for c in "wv" for i in range(3)]
+            b = [enc.out("B_%s%d_%s_%d" % (q, k, c, i)) for c in "wv" for i in range(3)]
+            obs.append(eqs(enc, "FunctionBased vs built-in: same %s of body %d" % (txt, k), list(zip(b, a))))
+    obs.append(eqs(enc, "FunctionBased vs built-in: same udot", [(enc.out("B_udot_%d" % i), enc.out("A_udot_%d" % i)) for i in range(nu)]))
+    obs.append(eqs(enc, "FunctionBased vs built-in: same qdot", [(enc.out("B_qdot_%d" % i), enc.out("A_qdot_%d" % i)) for i in range(nq)]))
+    obs.append(eqs(enc, "FunctionBased vs built-in: same kinetic and potential energy", [(enc.out("B_KE"), enc.out("A_KE")), (enc.out("B_PE"), enc.out("A_PE"))]))
     return obs
